@@ -66,8 +66,8 @@ def _sink_ok(prog: Program, resolver: Resolver, fi: FuncInfo, n: ast.AST, depth:
     q = fi.qualname
     if q == f"{ABSTRACT}._fcn":
         return True, "_fcn sign selection (SGN-evaluated)"
-    if q == f"{PKG}.hypertuner.HyperTuner.execute":
-        return True, "HyperTuner ranking (C19)"
+    if q.startswith(f"{PKG}.hypertuner.HyperTuner."):
+        return True, "HyperTuner ranking (C19 decides its polarity)"
     if _in_debug_block(n):
         return True, "debug print"
     if _is_fitness_dir_arg(n):
@@ -152,7 +152,7 @@ def run(prog: Program, res: Result) -> None:
                 if fi is None or isinstance(p, ast.arg) or any(isinstance(a, ast.arg) for a in ancestors(n)) \
                         or any(isinstance(a, ast.arguments) for a in ancestors(n)):
                     ok = True       # annotation / import level
-                elif fi.qualname in (f"{ABSTRACT}._fcn", f"{PKG}.hypertuner.HyperTuner.execute") or _in_debug_block(n):
+                elif fi.qualname == f"{ABSTRACT}._fcn" or fi.qualname.startswith(f"{PKG}.hypertuner.HyperTuner.") or _in_debug_block(n):
                     ok = True
                 elif isinstance(fi.node.returns, ast.AST) and any(x is n for x in ast.walk(fi.node.returns)):
                     ok = True
@@ -228,17 +228,22 @@ def run(prog: Program, res: Result) -> None:
         if not is_rate:
             continue
         ok = False
-        for a in ancestors(n):
-            if isinstance(a, (ast.If, ast.IfExp)) and isinstance(a.test, ast.Compare) and len(a.test.ops) == 1 \
-                    and isinstance(a.test.ops[0], (ast.IsNot, ast.Is)) and isinstance(a.test.comparators[0], ast.Constant) \
-                    and a.test.comparators[0].value is None:
-                l = a.test.left
-                if (isinstance(l, ast.Name) and l.id in guards) or dotted(l) in ("self._config.fitness_error", "self._config.early_stopping"):
-                    # n must be in the branch where the optional criterion is configured
-                    pos_branch = (a.body if isinstance(a.test.ops[0], ast.IsNot) else a.orelse)
-                    pos_nodes = [pos_branch] if isinstance(a, ast.IfExp) else pos_branch
-                    if any(n is x for s in pos_nodes for x in ast.walk(s)):
-                        ok = True
+        from ..sem import path_conditions
+        for (test, pol) in path_conditions(ss.node, n):
+            # the use sits where an optional criterion is known to be configured: inside `if X is not None`, in the else of
+            # `if X is None`, or after an `if X is None: return ..` sibling
+            tests = [test]
+            if isinstance(test, ast.BoolOp) and isinstance(test.op, ast.And) and pol:
+                tests = list(test.values)
+            elif isinstance(test, ast.BoolOp) and isinstance(test.op, ast.Or) and not pol:
+                tests = list(test.values)
+            for t in tests:
+                if isinstance(t, ast.Compare) and len(t.ops) == 1 and isinstance(t.ops[0], (ast.IsNot, ast.Is)) \
+                        and isinstance(t.comparators[0], ast.Constant) and t.comparators[0].value is None:
+                    l = t.left
+                    if (isinstance(l, ast.Name) and l.id in guards) or dotted(l) in ("self._config.fitness_error", "self._config.early_stopping"):
+                        if isinstance(t.ops[0], ast.IsNot) == pol:
+                            ok = True
         key = construct_key(prog, n, ss.module)
         res.ob(ok, f"{ss.module.relpath}:{n.lineno} {norm(n)} guarded={ok}", key)
         if not ok:
